@@ -666,6 +666,18 @@ theorem C05_recoveryScan_never_passes_semicolon (pre a b : List Byte) (eof fail 
   unfold recoveryScan
   exact recoverOuter_first_semi b sk (a.length + 2) a pre c false 0 0 ha (Nat.le_refl _)
 
+/-- … and what it costs: at most one step per byte up to and including the first `;` — `|a| + 1` steps of both loops together
+(white space after a `)` is skipped at no step), for any bytes `a`, any give-up character and any stream state, and whatever
+follows the `;`.  The cost of finding the end of a damaged record is a function of that record alone: this is the statement
+whose failure (cost = the rest of the file, once per record) was the quadratic pass 2. -/
+theorem C05_recoveryScan_cost_to_first_semicolon (pre a b : List Byte) (eof fail sk : Bool) (c : Byte)
+    (ha : ∀ x ∈ a, x ≠ chSemi) :
+    ∃ p' l' st', recoveryScan true false true (a.length + 2) ⟨pre, a ++ chSemi :: b, eof, fail, sk⟩ c =
+      .ok ⟨⟨p', chSemi :: b, false, false, sk⟩, 1, l', st'⟩ ∧ st' ≤ a.length + 1 := by
+  unfold recoveryScan
+  obtain ⟨p', l', st', h, hst⟩ := recoverOuter_first_semi_cost b sk (a.length + 2) a pre c false 0 0 ha (Nat.le_refl _)
+  exact ⟨p', l', st', h, by omega⟩
+
 /-- Without the end-of-record test (the scan as it stood before `fixes/C05-14`): when no `)` follows, the scan reads to the
 end of the input — `|rest| + 2` steps for every record that ends this way, however short the record is.  With pass 2
 resuming behind the record's `;` (`STEPfile::ReadInstance`), `n` such records cost `~ n²/2` record lengths. -/
